@@ -3,7 +3,8 @@ CONSTANTS
   MaxLen = 3
   Family = "proto"
   Deep = TRUE
-  Cases <- AllCases
-INIT Init
+  Alpha = "full"
+  Cases <- Tables
+INIT MCInit
 NEXT NoNext
 INVARIANT ExportCase
